@@ -65,7 +65,7 @@ def run_job(job):
 
     def fn(sp):
         count[0] += 1
-        if count[0] <= 3:
+        if count[0] <= 3 and not os.environ.get("VERIF_NOTRACE"):
             with tracer:
                 return h.fn(sp, **p)
         return h.fn(sp, **p)
